@@ -262,7 +262,7 @@ fn body_d(dbs: std::sync::Arc<nundb::bo::Databases>, mut sess: Session, tid: usi
                 Err(e) => format!("PANIC({})", panic_msg(&e)),
             };
             let msgs = sess.drain();
-            out.push(OpRec { tid, idx, line: line.clone(), resp, msgs, call, ret });
+            out.push(OpRec { tid, idx, line: line.clone(), resp, msgs, call, ret, ticks: crate::ilv::take_ticks() });
         }
         (out, sess)
     })
